@@ -890,3 +890,18 @@ MA('C15', 'out after a defaulted argument is optional', DUF,
    '_check_func_out_arg',
    "out_optional = pos_args.index('out') >= len(pos_args) - len(pos_defaults)",
    "out_optional = len(pos_defaults) > 0", '_func_out_type')
+MA('C15', 'default out-of-place wrapper drops keyword arguments', DUF,
+   'sampling_function._default_oop', 'func_ip(x, out=out, **kwargs)',
+   'func_ip(x, out=out)', 'sampling[param,ip')
+MA('C15', 'partial-coordinate result not broadcast', DUF,
+   '_make_dual_use_func.dual_use_func',
+   'out = np.broadcast_to(out, out_shape)', 'pass', 'sampling[partial0')
+MA('C15', 'in-place default wrapper ignores out', DUF,
+   'sampling_function._default_ip', 'out[:] = reshaped', 'out = reshaped',
+   'sampling[')
+MA('C15', 'point_collocation drops out', DUF, 'point_collocation',
+   'func(points, out=out, **kwargs)', 'out = func(points, **kwargs)',
+   'sampling[')
+MA('C15', '1-d meshgrid not unpacked', DUF,
+   '_make_dual_use_func.dual_use_func', 'x = x[0][None, ...]', 'x = x[0]',
+   'sampling[one_d')
